@@ -21,7 +21,7 @@ RULE = ("each case: SDMF/MDMF, k<=3, N<=5 on N..N+2 servers; every share number 
 LEVEL_TEXT = "Layout search over genuinely published versions with a file-derived reference model."
 ASSUMPTIONS = ["block corruption is only detectable with verify=True; without verify a block-corrupted share counts as a share of its version",
                "an unrecoverable competitor with the same sequence number as the best version is accepted either way (the statement speaks about picking between competing versions)"]
-REQUIRED_CLASSES = ["share-with-damaged-write-enabler", "check_and_repair", "healthy", "unhealthy", "must-force-newer", "must-force-competitor", "repair-ok", "repair-refused", "duplicate-share", "verify", "unrecoverable", "forced-repair"]
+REQUIRED_CLASSES = ["duplicate-share-corrupt", "share-with-damaged-write-enabler", "check_and_repair", "healthy", "unhealthy", "must-force-newer", "must-force-competitor", "repair-ok", "repair-refused", "duplicate-share", "verify", "unrecoverable", "forced-repair"]
 BUDGET = {"quick": 900, "thorough": 7200}
 STATES = ["cur", "cur", "cur", "old", "comp", "newer", "corrupt", "missing", "bad-enabler"]
 
@@ -39,9 +39,22 @@ def cases(draw):
     style = draw(st.sampled_from(["mixed", "mixed", "mostly-cur", "all-cur"]))
     pool = {"mixed": STATES, "mostly-cur": ["cur"] * 6 + STATES, "all-cur": ["cur"]}[style]
     states = [draw(st.sampled_from(pool)) for _ in range(n)]
-    dups = draw(st.lists(st.tuples(st.integers(0, n - 1), st.integers(0, servers - 1), st.sampled_from(["cur", "cur", "old", "comp", "newer"])).map(list), max_size=2))
+    dups = draw(st.lists(st.tuples(st.integers(0, n - 1), st.integers(0, servers - 1), st.sampled_from(["cur", "cur", "old", "comp", "newer", "corrupt"])).map(list), max_size=2))
+    verify = draw(st.booleans())
+    shape = draw(st.sampled_from([None] * 6 + ["twin", "pair"]))
+    if shape == "twin" and servers > 1:
+        # every copy of one share number is damaged: the verifier must not count any of them
+        i = draw(st.integers(0, n - 1))
+        states[i] = "corrupt"
+        dups = [[i, draw(st.integers(0, servers - 1)), "corrupt"]] + dups[:1]
+        verify = True
+    elif shape == "pair" and n > 1:
+        # several damaged shares among otherwise current ones
+        for i in draw(st.lists(st.integers(0, n - 1), min_size=2, max_size=3)):
+            states[i] = "corrupt"
+        verify = True
     return {"hsalt": draw(st.integers(0, 15)), "threads": draw(st.sampled_from(["sync", "async"])), "fmt": draw(st.sampled_from(["sdmf", "mdmf"])), "k": k, "n": n, "servers": servers, "states": states, "dups": dups,
-            "verify": draw(st.booleans()), "force": draw(st.booleans()), "via": draw(st.sampled_from(["check+repair", "check+repair", "check_and_repair"])), "sched": draw(st.lists(st.integers(0, 9), max_size=30))}
+            "verify": verify, "force": draw(st.booleans()), "via": draw(st.sampled_from(["check+repair", "check+repair", "check_and_repair"])), "sched": draw(st.lists(st.integers(0, 9), max_size=30))}
 
 
 class _Done(Exception):
@@ -115,6 +128,15 @@ def run_case(case, ctx):
             return raw
         home = {sh: srv for (srv, sh) in S2}
         layout = {}
+
+        def damaged(raw):
+            tmp = os.path.join(g.basedir, "tmpshare")
+            open(tmp, "wb").write(raw)
+            a, b = mut_share.parse(tmp)["fields"]["share_data"]
+            mut_share.flip(tmp, a + (16 if fmt == "mdmf" and b - a > 16 else 0), 0x10)
+            raw = open(tmp, "rb").read()
+            os.unlink(tmp)
+            return raw
         corrupt = set()
         for sh, stt in enumerate(case["states"]):
             if stt == "missing":
@@ -125,17 +147,16 @@ def run_case(case, ctx):
                 raw = raw[:60] + bytes([raw[60] ^ 0x04]) + raw[61:]
                 classes.add("share-with-damaged-write-enabler")
             if stt == "corrupt":
-                tmp = os.path.join(g.basedir, "tmpshare")
-                open(tmp, "wb").write(raw)
-                a, b = mut_share.parse(tmp)["fields"]["share_data"]
-                mut_share.flip(tmp, a + (16 if fmt == "mdmf" and b - a > 16 else 0), 0x10)
-                raw = open(tmp, "rb").read()
-                os.unlink(tmp)
+                raw = damaged(raw)
                 corrupt.add((home[sh], sh))
             layout[(home[sh], sh)] = raw
         for (sh, srv, stt) in case["dups"]:
             if (srv, sh) not in layout and case["states"][sh] != "missing":
                 layout[(srv, sh)] = share_from(by_state[stt], sh, srv)
+                if stt == "corrupt":
+                    layout[(srv, sh)] = damaged(layout[(srv, sh)])
+                    corrupt.add((srv, sh))
+                    classes.add("duplicate-share-corrupt")
                 classes.add("duplicate-share")
         restore(layout)
         # ---- model
